@@ -107,7 +107,8 @@ class Rec:
         except HarnessError:
             raise
         except Exception as exc:  # noqa: BLE001
-            self.fail(clause, "raised " + describe_exc(exc))
+            # bucket by (clause, exception type, innermost pyxel frame): one signature per root cause
+            self.fail(f"{clause}:{type(exc).__name__}@{innermost_frame(exc)}", "raised " + describe_exc(exc))
 
     def raises(self, clause: str, fn: Callable[[], Any], detail: str = "") -> Exception | None:
         """Invalid input: `fn` must raise an Exception; returns it (or records a failure)."""
@@ -117,6 +118,13 @@ class Rec:
             return exc
         self.fail(clause, "no exception raised " + detail)
         return None
+
+
+def innermost_frame(exc: BaseException) -> str:
+    for fr in reversed(traceback.extract_tb(exc.__traceback__)):
+        if "/pyxel/" in fr.filename:
+            return f"{Path(fr.filename).name}:{fr.name}"
+    return "-"
 
 
 def describe_exc(exc: BaseException) -> str:
